@@ -365,7 +365,32 @@ def budget_s(size: int) -> float:
     return TIMEOUT_S + 0.5 * size / 4096
 
 
-def _guard(fn: Any, stage: list, measure: bool, size: int = 0, scale: float = 1.0) -> Outcome:
+def answer(sh: 'Shape', notify: Notify) -> bytes:
+    """What Peer._run does with a refusal (`except Notify as notify`): the real Protocol.new_notification writes
+    the NOTIFICATION (here into a list), then Peer._reset / Peer._close put the error into the reset message.
+    Returns the bytes written; whatever this raises leaves Peer._run and no NOTIFICATION closes the session."""
+    written: list[bytes] = []
+
+    async def writer_async(raw: bytes) -> None:
+        written.append(bytes(raw))
+
+    saved = sh.proto.connection.writer_async
+    sh.proto.connection.writer_async = writer_async
+    try:
+        sessions.run(sh.proto.new_notification(notify))
+    finally:
+        sh.proto.connection.writer_async = saved
+    f'notification sent ({notify.code},{notify.subcode})'
+    f'peer reset, message [notification sent] error[{notify}]'
+    raw = b''.join(written)
+    if len(written) != 1 or raw[:16] != MARKER or int.from_bytes(raw[16:18], 'big') != len(raw) or raw[18] != 3:
+        raise ValueError(f'what was written is not one NOTIFICATION: {raw[:40].hex()}')
+    if raw[19] != notify.code or raw[20] != notify.subcode:
+        raise ValueError(f'the NOTIFICATION written is {raw[19]}/{raw[20]}, the refusal was {notify.code}/{notify.subcode}')
+    return raw
+
+
+def _guard(fn: Any, stage: list, measure: bool, size: int = 0, scale: float = 1.0, sh: 'Shape | None' = None) -> Outcome:
     counter = _Counter()
     old = signal.signal(signal.SIGALRM, _alarm)
     oldv = signal.signal(signal.SIGVTALRM, _alarm)
@@ -387,6 +412,12 @@ def _guard(fn: Any, stage: list, measure: bool, size: int = 0, scale: float = 1.
         out = Outcome('decoded', '', stage[0], kind)
     except Notify as e:
         out = Outcome('notify', f'{e.code} {e.subcode}', stage[0], note=bytes(e.raw_data)[:100].decode('ascii', 'replace'))
+        if sh is not None:
+            # ... and the refusal has to reach the peer: the NOTIFICATION is written by the real code
+            try:
+                answer(sh, e)
+            except Exception as e2:  # noqa: BLE001
+                out = Outcome('raised', type(e2).__name__, 'answer:' + stage[0], note=f'refusal {e.code}/{e.subcode} could not be sent: ' + _site(e2, False) + ' | ' + str(e2)[:120])
     except Notification:  # a received NOTIFICATION is raised by read_message: that is "decoded"
         out = Outcome('decoded', '', stage[0], 'notification')
     except RecursionError as e:
@@ -413,7 +444,7 @@ def unpack_forced(sh: Shape, ty: int, body: bytes, measure: bool = False, scale:
         msg = Message.unpack(ty, memoryview(body), sh.neg)
         return force(sh, ty, msg, body, stage)
 
-    out = _guard(go, stage, measure, len(body), scale)
+    out = _guard(go, stage, measure, len(body), scale, sh=sh)
     if out.cls == 'timeout' and scale == 1.0:
         # a backstop that fired is confirmed with three times the budget before it counts
         again = unpack_forced(sh, ty, body, measure, scale=3.0)
@@ -454,7 +485,7 @@ def accept_open(sh: Shape, body: bytes, multisession: bool = False) -> Outcome:
             raise Notify(*err)
         return 'open-accepted'
 
-    return _guard(go, stage, False, len(body))
+    return _guard(go, stage, False, len(body), sh=sh)
 
 
 def unpack_only(sh: Shape, ty: int, body: bytes, measure: bool = False) -> Outcome:
@@ -468,7 +499,7 @@ def unpack_only(sh: Shape, ty: int, body: bytes, measure: bool = False) -> Outco
             msg.data
         return type(msg).__name__.lower()
 
-    return _guard(go, stage, measure, len(body))
+    return _guard(go, stage, measure, len(body), sh=sh)
 
 
 from exabgp.reactor.peer.context import PeerContext  # noqa: E402
@@ -569,7 +600,7 @@ def read_message(sh: Shape, ty: int, body: bytes, via: str = 'read_message', mea
                 sessions.run(_RR(sh).handle_async(ctx, m))
         return type(m).__name__.lower()
 
-    out = _guard(go, stage, measure, len(body), scale)
+    out = _guard(go, stage, measure, len(body), scale, sh=sh)
     if out.cls == 'timeout' and scale == 1.0:
         again = read_message(sh, ty, body, via, measure, fast, scale=3.0)
         return again if again.cls != 'timeout' else out
